@@ -25,4 +25,8 @@ LEVEL_NOTE = ('A7 (syntactically visible writes), origin rules of the frame '
 
 
 def units(ctx):
-    return [frame_unit('C09')]
+    from contracts import utils
+    us = [frame_unit('C09')]
+    us += pyvc_units(core_glue.contracts(), 'C09', core_glue.setup)
+    us += pyvc_units(utils.contracts(), 'C09', utils.setup)
+    return us
